@@ -2,7 +2,7 @@
 C06 — helper lemmas for the roll-back theorem (`Rollback.lean`): association-list lookup, `rposition`,
 one `rollStep`, the well-formedness invariant of the symbol map and its preservation.
 -/
-import SteelVerif.C06.Props
+import SteelVerif.C06.LemmasRecycler
 namespace SteelVerif.C06
 
 /-! ## Association-list lookup (the `map` field read through `get`) -/
